@@ -115,13 +115,25 @@ Definition cobs_eqb (es : list kv) (a : cobs) (b : cobs_r) : bool :=
   Bool.eqb e1 e2 && kref_eqb es k1 k2 && vref_eqb es v1 v2 && (i1 =? i2)%Z.
 
 (* --- tables --- *)
+(* the checksummed payload of a real block: in full, or (to keep case files small) its length and
+   Adler-32 (hash/adler32 in the harness) *)
+Inductive pref := PFull (b : bytes) | PSum (len sum : N).
+Definition adler32 (b : bytes) : N :=
+  let '(a, c) := fold_left (fun (st : N * N) x => let a' := (fst st + x) mod 65521 in
+                                                  (a', (snd st + a') mod 65521)) b (1, 0) in
+  c * 65536 + a.
+Definition pref_eqb (b : bytes) (r : pref) : bool :=
+  match r with
+  | PFull y => bytes_eqb b y
+  | PSum len sum => (N.of_nat (length b) =? len) && (adler32 b =? sum)
+  end.
 (* what the real table showed per block: index key, checksummed payload, checksum bytes *)
-Definition rblock := (bytes * bytes * bytes)%type.
+Definition rblock := (bytes * pref * bytes)%type.
 (* smallest, biggest, MaxVersion, KeyCount *)
 Definition rmeta := (bytes * bytes * N * N)%type.
 
 Definition rblock_eqb (b : bblock) (r : rblock) : bool :=
-  let '(base, payload, _) := r in bytes_eqb (bb_base b) base && bytes_eqb (block_payload b) payload.
+  let '(base, payload, _) := r in bytes_eqb (bb_base b) base && pref_eqb (block_payload b) payload.
 
 (* model: Builder (coded split policy) -> stored blocks -> OpenTable *)
 Definition model_table (bs : N) (enc : bool) (es : list kv) (css : option (list bytes))
